@@ -12,6 +12,7 @@
  * stdin:
  *   op a4|a6|r4|r6 <bits> <len> <max> <asn> <src>    writer: pfx_table_add / pfx_table_remove
  *   op ka|kr <asn> <kid> <src>                        writer: spki_table_add_entry / spki_table_remove_entry
+ *   op sp|sk <src>                                    writer: pfx_table_src_remove / spki_table_src_remove
  *   q  <4|6> <bits> <len> <asn>                       reader query: pfx_table_validate_r
  *   k  <asn> <kid>                                    reader query: spki_table_get_all / spki_table_search_by_ski
  *   run <readers> <milliseconds> <seed> <enumerate 0|1> <diff 0|1>
@@ -46,7 +47,7 @@ struct key {
 	uint32_t asn;
 	unsigned long kid, src;
 };
-enum opk { O_ADD, O_REM, O_KADD, O_KREM };
+enum opk { O_ADD, O_REM, O_KADD, O_KREM, O_SRCP, O_SRCK };
 struct op {
 	enum opk k;
 	struct rec r;
@@ -162,6 +163,22 @@ static int covers(const struct rec *r, const struct rec *q)
 
 static void spec_apply(const struct op *o)
 {
+	if (o->k == O_SRCP) {
+		for (int i = 0; i < set_rn;)
+			if (set_r[i].src == o->r.src)
+				set_r[i] = set_r[--set_rn];
+			else
+				i++;
+		return;
+	}
+	if (o->k == O_SRCK) {
+		for (int i = 0; i < set_kn;)
+			if (set_k[i].src == o->key.src)
+				set_k[i] = set_k[--set_kn];
+			else
+				i++;
+		return;
+	}
 	if (o->k == O_ADD) {
 		for (int i = 0; i < set_rn; i++)
 			if (same_rec(&set_r[i], &o->r))
@@ -241,6 +258,10 @@ static void spec_enum(int v)
 /* ---------------- the real tables ---------------- */
 static int impl_apply(const struct op *o)
 {
+	if (o->k == O_SRCP)
+		return pfx_table_src_remove(&pfxt, src_ptr(o->r.src));
+	if (o->k == O_SRCK)
+		return spki_table_src_remove(&spkit, (struct rtr_socket *)src_ptr(o->key.src));
 	if (o->k == O_ADD || o->k == O_REM) {
 		struct pfx_record p;
 
@@ -499,7 +520,11 @@ int main(void)
 			struct op *o = &ops[nops];
 
 			memset(o, 0, sizeof(*o));
-			if (k[0] == 'k') {
+			if (k[0] == 's') {
+				o->k = k[1] == 'p' ? O_SRCP : O_SRCK;
+				sscanf(line, "%*s %*s %lu", &o->r.src);
+				o->key.src = o->r.src;
+			} else if (k[0] == 'k') {
 				o->k = k[1] == 'a' ? O_KADD : O_KREM;
 				sscanf(line, "%*s %*s %u %lu %lu", &o->key.asn, &o->key.kid, &o->key.src);
 			} else {
